@@ -59,6 +59,7 @@ func will(x *explore.X, pr c12params) {
 		return // the token timeout can only strike a connection that is waiting for a token
 	}
 
+	vrt.Quiet(true) // observers and helper connect on the default schedule; exploration starts with the client under test
 	w := env.NewWorld(x, func(m *broker.MemoryBackend) {
 		m.Credentials = map[string]string{"u": "pw"}
 		m.ClientParallelPublishes = 1
@@ -85,6 +86,7 @@ func will(x *explore.X, pr c12params) {
 	w.Run(online, offline, helper)
 
 	// the client under test
+	vrt.Quiet(false)
 	wm := &packet.Message{Topic: "w", Payload: []byte("WILL"), QOS: wq, Retain: wr}
 	d := w.NewClient("d")
 	conn := creds(env.Connect("d", false, wm))
@@ -384,10 +386,14 @@ func runC12(r *report.Report) {
 	b := 1
 	qs := []int{1}
 	if r.Tier == "thorough" {
-		b = 2
 		qs = []int{0, 1, 2}
 	}
 	st = explore.Explore(explore.Config{Harness: "C12.will", Params: mk(c12states, causes, qs), Bound: b, Workers: report.Workers(), Deadline: r.Deadline()})
 	r.AddExploration("causes-x-states-reordered", "history", fmt.Sprintf("the same combinations (will qos %v) with up to %d scheduling deviations inside each", qs, b), st,
 		"as above; every placement of the deviation(s) over the broker's scheduling points", "will-published")
+	if r.Tier == "thorough" {
+		st = explore.Explore(explore.Config{Harness: "C12.will", Params: mk([]string{"idle", "inbound-q2-open", "outbound-open"}, c12causes, []int{1}), Bound: 2, Workers: report.Workers(), Deadline: r.Deadline()})
+		r.AddExploration("causes-x-states-reordered2", "history", "16 post-acceptance causes x 3 states (will qos 1) with up to 2 scheduling deviations inside each", st,
+			"as above", "will-published")
+	}
 }
